@@ -13,6 +13,7 @@ import Compress.Proofs.MetaRApi
 import Compress.XFlate.ReaderSpec
 import Compress.Facts.Sites
 import Compress.Proofs.FlateApi
+import Compress.Proofs.BrotliApi
 import Compress.Proofs.BzReaderApi
 
 namespace Compress.Props.C18
@@ -143,6 +144,25 @@ theorem C18_flate_reader_closed (r : Reader) (hc : (r.close).2 = none) (he : r.e
     · exact Or.inr h
   have hcl := (Compress.Proofs.FlateApi.close_closes r h').2
   exact ⟨hcl.1, by simp [Reader.err, hcl.1], Compress.Proofs.FlateApi.closed_forever _ hcl ops hn⟩
+
+open Compress.Brotli.Api in
+/-- **brotli.Reader: closed means closed.** A Close that returns nil on a reader with an error latched
+    (that error was `io.EOF`, or the reader was closed already - `C09_brotli_close_result`) closes it:
+    every later Read returns `(0, io.ErrClosedPipe)`, every later Close nil, and nothing changes, for
+    every continuation without Reset.  (A Close that returns nil with nothing latched - mid-stream -
+    does not close: the Go code returns `br.err`, which is nil.) -/
+theorem C18_brotli_reader_closed (sd : ByteArray) (r : Reader) (hc : (r.close).2 = none) (he : r.err ≠ none)
+    (ops : List Op) (hn : ∀ op ∈ ops, op.noReset = true) :
+    (r.close).1.done = true ∧ (r.close).1.err = some .closed ∧
+    Reader.run sd (r.close).1 ops = ((r.close).1, ops.map Compress.Proofs.BrotliApi.closedRes) := by
+  have h := (Compress.Proofs.BrotliApi.close_nil_iff r).1 hc
+  have h' : r.err = some .eof ∨ r.done = true := by
+    rcases h with h | h | h
+    · exact absurd h he
+    · exact Or.inl h
+    · exact Or.inr h
+  have hcl := (Compress.Proofs.BrotliApi.close_closes r h').2
+  exact ⟨hcl.1, by simp [Reader.err, hcl.1], Compress.Proofs.BrotliApi.closed_forever sd _ hcl ops hn⟩
 
 open Compress.Bzip2.ReaderApi in
 /-- **bzip2.Reader: closed means closed** (same statement). -/
